@@ -25,28 +25,33 @@ Fixpoint strict_num (p : bytes) (acc : N) : option N :=
 Definition strict_dec (p : bytes) : option N :=
   match p with
   | [] => None
-  | [48] => Some 0
-  | 48 :: _ => None
-  | _ => strict_num p 0
+  | d :: r => if N.eqb d 48 then (match r with [] => Some 0 | _ :: _ => None end)
+              else strict_num p 0
   end.
 
 (* split at the first CR LF; None when there is none *)
 Fixpoint take_line (l : bytes) : option (bytes * bytes) :=
   match l with
-  | 13 :: 10 :: r => Some ([], r)
-  | x :: r => match take_line r with Some (a, b) => Some (x :: a, b) | None => None end
   | [] => None
+  | x :: r =>
+      match r with
+      | [] => None
+      | y :: r' =>
+          if (N.eqb x 13 && N.eqb y 10)%bool then Some ([], r')
+          else match take_line r with Some (a, b) => Some (x :: a, b) | None => None end
+      end
   end.
 
 Definition strict_bulk (l : bytes) : option (bytes * bytes) :=
   match take_line l with
-  | Some (36 :: digits, rest) =>
+  | Some (mk :: digits, rest) =>
+      if negb (N.eqb mk 36) then None else
       match strict_dec digits with
       | Some n =>
-          let k := N.to_nat n in
-          if (length rest <? k + 2)%nat then None
-          else if beqb (firstn 2 (skipn k rest)) crlf then Some (firstn k rest, skipn (k + 2) rest)
-          else None
+          if (N.of_nat (length rest) <? n + 2) then None   (* compare before converting: n may be huge *)
+          else let k := N.to_nat n in
+               if beqb (firstn 2 (skipn k rest)) crlf then Some (firstn k rest, skipn (k + 2) rest)
+               else None
       | None => None
       end
   | _ => None
@@ -69,7 +74,8 @@ Fixpoint strict_bulks (fuel : nat) (n : N) (l : bytes) : option (list bytes * by
 (* Some args iff b is exactly one well-formed request *)
 Definition strict_request (b : bytes) : option (list bytes) :=
   match take_line b with
-  | Some (42 :: digits, rest) =>
+  | Some (mk :: digits, rest) =>
+      if negb (N.eqb mk 42) then None else
       match strict_dec digits with
       | Some n => if N.eqb n 0 then None
                   else match strict_bulks (length rest) n rest with
